@@ -164,7 +164,21 @@ func (x *Exec) step(fr *Frame, st *State, ins ssa.Instruction) {
 		x.c.note("channel created in %s: channel semantics not modelled", shortFuncName(fr.fn))
 		fr.env[in] = Value{T: in.Type(), L: []*Term{x.newRef(st, "chan")}}
 	case *ssa.Send:
-		x.c.note("channel send in %s: not modelled (no effect)", shortFuncName(fr.fn))
+		// a send is a ghost output event: logged, and checked against the contract's onsend clauses
+		v := x.val(fr, in.X)
+		tn := typeName(v.T)
+		x.c.note("channel send in %s: modelled as a ghost output event (no blocking semantics)", shortFuncName(fr.fn))
+		x.logCall(st, "send:"+tn, []Value{v})
+		fc := x.contracts[contractKey(x.top)]
+		if fc != nil && !st.dry {
+			for _, sc := range fc.OnSend {
+				if sc.Type == tn || strings.HasSuffix(tn, "."+sc.Type) {
+					scope := &specScope{x: x, fr: fr, st: st, old: fr.entry, bound: map[string]Value{"msg": v}}
+					g := x.evalSpec(scope, sc.Expr)
+					x.oblige(fr, st, "send", sc.Label, in.Pos(), g.L[0])
+				}
+			}
+		}
 	case *ssa.Select:
 		unsup("select statement in %s", fr.fn.Name())
 	case *ssa.Lookup:
